@@ -225,6 +225,10 @@ class Facts(object):
                 out[attr] = int(v) if isinstance(v, int) and not isinstance(v, bool) else v
             except InterpRaise as exc:
                 out[attr] = ('raise', exc.exc_name)
+            except AnalysisError:
+                if not attr.startswith('_'):
+                    raise
+                out[attr] = ('missing', attr)        # a private helper that was renamed: no rule depends on it
         # the rule vector for a symbolic step ratio, cold cache
         P.clear_cache()
         try:
